@@ -377,6 +377,97 @@ def weak_std_calls(r, f):
     return out
 
 
+VALUE_CLOSURE_TAKERS = {"map", "and_then", "map_or", "map_or_else", "unwrap_or_else", "is_some_and", "is_ok_and", "is_none_or", "filter", "then",
+                        "or_else", "find", "find_map", "any", "all", "position", "rposition", "filter_map", "fold", "retain", "sort_by", "sort_by_key",
+                        "max_by_key", "min_by_key", "max_by", "min_by", "for_each", "take_while", "skip_while", "flat_map", "partition", "reduce",
+                        "scan", "get_or_insert_with", "or_insert_with", "and_modify", "then_some", "zip", "map_while", "try_for_each", "try_fold"}
+
+
+def uncontracted_value_closures(r, f):
+    """methods of the REAL part of the spliced body of f that are handed a closure WITHOUT a contract and whose result depends on what
+    the closure returns (`opt.map(|x| ..)`, `res.and_then(|x| ..)`, `v.retain(|x| ..)`). Verus accepts such a call but knows nothing
+    about the closure's result, so a failed obligation of that function may be the verifier's limit, not the code's fault (false alarm
+    H45: `range.map(|range| range.bounds().0)` instead of an explicit match). Ghost text (proof blocks, assertions, loop
+    specifications, `let ghost`) is skipped: closures there are spec closures."""
+    try:
+        from lex import lex, match_close
+        lines = open(r.gen_path).read().split("\n")
+        a, b = f.body_lines
+        toks = lex("\n".join(lines[a - 1:b]))
+    except Exception:
+        return []
+    own = set(getattr(r, "own_iter", ()) or ())
+    out = []
+    i = 0
+    n = len(toks)
+    while i < n:
+        t = toks[i]
+        # ghost text
+        if t.text == "proof" and i + 1 < n and toks[i + 1].text == "{":
+            i = match_close(toks, i + 1) + 1
+            continue
+        if t.text in ("assert", "assume") or (t.text == "let" and i + 1 < n and toks[i + 1].text == "ghost"):
+            d = 0
+            while i < n:
+                x = toks[i].text
+                if x in ("(", "[", "{"):
+                    i = match_close(toks, i)
+                elif x == ";":
+                    break
+                elif x == "by" and i + 1 < n and toks[i + 1].text == "{":
+                    i = match_close(toks, i + 1)
+                    break
+                i += 1
+            i += 1
+            continue
+        if t.text in ("invariant", "invariant_except_break", "ensures", "decreases", "requires"):
+            while i < n and toks[i].text != "{":
+                if toks[i].text in ("(", "["):
+                    i = match_close(toks, i)
+                i += 1
+            continue
+        prev = toks[i - 1].text if i else ""
+        if t.kind == "punct" and t.text in ("|", "||") and prev in ("(", ",", "move"):
+            st = i - 1 if prev == "move" else i
+            if t.text == "||":
+                pe = i
+            else:
+                pe = i + 1
+                while pe < n and toks[pe].text != "|":
+                    if toks[pe].text in ("(", "[", "{", "<") and toks[pe].text != "<":
+                        pe = match_close(toks, pe)
+                    pe += 1
+            has_contract = False
+            q = pe + 1
+            if q < n and toks[q].text == "->":
+                while q < n and toks[q].text != "{":
+                    if toks[q].text == "ensures":
+                        has_contract = True
+                    if toks[q].text in ("(", "["):
+                        q = match_close(toks, q)
+                    q += 1
+            # the method the closure is handed to: `. NAME (` [args ,] CLOSURE
+            k = st - 1
+            depth = 0
+            while k >= 0:
+                x = toks[k].text
+                if x in (")", "]", "}"):
+                    depth += 1
+                elif x in ("(", "[", "{"):
+                    if depth == 0:
+                        break
+                    depth -= 1
+                k -= 1
+            name = toks[k - 1].text if k >= 1 and toks[k].text == "(" else ""
+            is_method = k >= 2 and toks[k - 2].text == "."
+            if not has_contract and is_method and name in VALUE_CLOSURE_TAKERS and name not in own and name not in out:
+                out.append(name)
+            i = pe + 1
+            continue
+        i += 1
+    return out
+
+
 def units_for(prop):
     out = []
     for tmpl in sorted(glob.glob(os.path.join(VERIF, "units", "*", "unit.rs.tmpl"))):
@@ -487,6 +578,11 @@ def main():
                 wk = weak_std_calls(r, f)
                 undecided.append(f"{oid}: the body uses std iterator adaptor(s) the verifier has no usable specification for ({', '.join(wk[:4])}); failed: {errs[0]['msg']}")
                 rec["status"] = "undecided (unspecified std iterator adaptors)"
+            elif errs and uncontracted_value_closures(r, f):
+                # a closure without a contract handed to Option::map / and_then / retain / …: its result is opaque to the verifier
+                wk = uncontracted_value_closures(r, f)
+                undecided.append(f"{oid}: the body hands a closure without a contract to {', '.join('`' + w + '`' for w in wk[:4])}, whose result the verifier cannot follow; failed: {errs[0]['msg']}")
+                rec["status"] = "undecided (closure without contract)"
             elif errs:
                 violations.append((oid, errs, r))
                 rec["status"] = "FAILED"
